@@ -52,8 +52,8 @@ func vpGcLE32(b []byte) uint32 {
 // bits -, user meta, expiresAt, 1-byte value, strictly increasing symbolic offsets; key/value
 // buffers are reused between records like the real iterator does) and may fail at the end;
 // DB.get answers with an ARBITRARY ValueStruct at every call (meta, version, expiry and 12 value
-// bytes that may or may not be a pointer to this file/offset; optionally an empty value), or
-// fails; DB.sendToWriteCh records what is sent, rejects a batch longer than a symbolic limit with
+// bytes that may or may not be a pointer to this file/offset; for the first record optionally an
+// empty value), or fails; DB.sendToWriteCh records what is sent, rejects a batch longer than a symbolic limit with
 // ErrTxnTooBig, may fail synchronously (ErrBlockedWrites) or asynchronously (request.Err);
 // time.Now is any non-decreasing sequence; DB.MaxVersion is a symbolic number; discardStats.Update
 // and the file unlink (z.MmapFile.Delete) are recorded. No files: logFile structs are built directly.
@@ -89,6 +89,9 @@ func VpHGcRewrite() {
 		n = vpChoose("entries", genN+1)
 	}
 	maxN := n
+	// general shape with 3 or more records: the failure injections, the empty LSM value and the
+	// two-iterator case are exercised with fewer records only
+	lean := batching || n >= 3
 
 	// ---------------- the database around the value log ----------------
 	db := &DB{}
@@ -103,7 +106,7 @@ func VpHGcRewrite() {
 	limit := vpInt("batchLimit")
 	clock := vpU64("clock0")
 	itersMax := uint8(2)
-	if batching {
+	if lean {
 		itersMax = 1
 	}
 	// one combined assumption (every vpAssume costs a model extraction):
@@ -201,7 +204,7 @@ func VpHGcRewrite() {
 			}
 		}
 		cur = -1
-		if !batching && vpBool("iterateFails") {
+		if !lean && vpBool("iterateFails") {
 			vpCover("gc.iterate-error")
 			return 0, vpErrGcIO
 		}
@@ -219,12 +222,12 @@ func VpHGcRewrite() {
 			r.vs = vs
 			return vs, nil
 		}
-		if vpBool("getFails") {
+		if !lean && vpBool("getFails") {
 			vpCover("gc.get-error")
 			return y.ValueStruct{}, vpErrGcIO
 		}
 		vs := y.ValueStruct{Meta: vpU8("lsmMeta"), UserMeta: vpU8("lsmUmeta"), ExpiresAt: vpU64("lsmExp"), Version: vpU64("lsmVer")}
-		if emptyVal == 1 && vpChoose("lsmEmptyValue", 2) == 1 {
+		if emptyVal == 1 && cur == 0 && vpChoose("lsmEmptyValue", 2) == 1 {
 			vs.Value = nil
 			vpCover("gc.lsm-empty-value")
 		} else {
@@ -240,13 +243,13 @@ func VpHGcRewrite() {
 			vpCover("gc.txn-too-big")
 			return nil, ErrTxnTooBig
 		}
-		if !batching && len(entries) > 0 && vpBool("sendFails") {
+		if !lean && len(entries) > 0 && vpBool("sendFails") {
 			vpCover("gc.send-error")
 			return nil, ErrBlockedWrites
 		}
 		req := &request{Entries: entries}
 		req.IncrRef()
-		if !batching && len(entries) > 0 && vpBool("writeFails") {
+		if !lean && len(entries) > 0 && vpBool("writeFails") {
 			vpCover("gc.write-error")
 			req.Err = vpErrGcIO
 			return req, nil
